@@ -323,6 +323,25 @@ def starting_arguments(chk, repo, rule, where='TidalPy/RadialSolver/solver.pyx')
                 if a['num_ys'] != SR.MAXY: bad.append(f'num_ys = {a["num_ys"]}, the starting block has stride {SR.MAXY}')
                 chk.ob(rule, f'{lab}: cf_find_starting_conditions receives the innermost layer\'s flags and material values, the frequency / degree / G of the solve and the requested family', not bad,
                        '; '.join(bad[:4]), where, key=f'{rule}|{lab}', method='recorded arguments of the whole-function symbolic execution')
+        # with internal non-dimensionalisation: the starting solutions and the equations they are integrated with must live in the same unit system
+        r = SR.run_solver(repo, kinds, ('tidal',), True)
+        lab = f'innermost layer {kinds[0]}, solved non-dimensionalised'
+        if len(r.start_calls) == 1 and r.build_calls:
+            actual, bound_ = r.start_calls[0]
+            roles = role_names('cf_find_starting_conditions', actual)
+            a = {role: bound_.get(act) for role, act in zip(roles, actual)}
+            mo = repo.by_path('TidalPy/RadialSolver/derivatives/odes.pyx')
+            bnames = role_names('cf_build_solver', [x.arg for x in mo.defs['cf_build_solver'].args.args])
+            b = dict(zip(bnames, r.build_calls[0]))
+            bad = []
+            for sp, bp, txt in (('frequency', 'frequency_to_use', 'frequency'), ('G_to_use', 'G_to_use', 'gravitational constant')):
+                if isinstance(a[sp], Opaque) or isinstance(b[bp], Opaque) or not d.equal(X.lift(a[sp]), X.lift(b[bp])):
+                    bad.append(f'the {txt} handed to the starting conditions is not the one the layer\'s equations are integrated with')
+            span = b.get('t_span')
+            if not (isinstance(span, tuple) and not isinstance(a['radius'], Opaque) and d.equal(X.lift(a['radius']), X.lift(span[0]))):
+                bad.append('the starting radius is not the radius the integration of the innermost layer starts at')
+            chk.ob(rule, f'{lab}: the starting conditions are computed in the unit system of the equations they are integrated with (same frequency, G and starting radius as the innermost layer\'s solver)',
+                   not bad, '; '.join(bad[:3]), where, key=f'{rule}|{lab}', method='recorded arguments of the whole-function symbolic execution')
 
 
 def entry_point_arguments(chk, repo, rule, where='TidalPy/RadialSolver/solver.pyx'):
